@@ -89,6 +89,9 @@ def handleInv (ins outs : List J) : Verdict :=
   -- `pwmut pw1 pw2 ys`: judged as `pw pw2 ys` (the object held pw2 when the queries were made)
   let ins : List J := match ins with
     | J.atom "pwmut" :: _ :: rest => J.atom "pw" :: rest
+    -- `pwd pw step ys`: the same step CDF offered by a type that also implements PMF and Step (a user-defined
+    -- DiscreteDist): its quantiles are those of the CDF
+    | J.atom "pwd" :: pw :: _ :: rest => J.atom "pw" :: pw :: rest
     | _ => ins
   match ins.getLast?, outs with
   | some (.arr ys), [.arr xs] =>
